@@ -682,74 +682,437 @@ def family(entry):
   return entry if entry == 'rebind[fn]' else entry.split('[')[0]
 
 
-def check_log(ctx, report, variant, root, log, expected, offset=()):
+def check_log(ctx, report, variant, root, log, expected, offset=(), shared=(), remap=None):
   """An identity-based visit log [(KeyPath, value, parent)] against the expected
-  positions {keys: node}: completeness, uniqueness, path leads back, parent."""
+  positions {keys: node}: completeness, uniqueness, path leads back, parent.
+
+  shared: ids of containers that occur at more than one position (a missing
+  member of such a container is keyed `.../shared`); remap(clause, mech, keys)
+  may re-key a violation from the position it concerns."""
   c = ctx.counters
   c['visit_logs'] += 1
   c['visited_nodes'] += len(log)
   seen = {}
   entry = family(variant)
-  bad = lambda clause, mech, detail: report(clause, mech, f'{variant}: {detail}')
+
+  def bad(clause, mech, detail, keys=None):
+    if remap is not None and keys is not None:
+      clause, mech = remap(clause, mech, keys)
+    report(clause, mech, f'{variant}: {detail}')
   for path, value, parent in log:
     keys = tuple(path.keys)
     t = tk(keys)
+    rel = keys[len(offset):]
     if t in seen:
-      bad('visit-duplicate', entry, f'{show(keys)} visited twice')
+      bad('visit-duplicate', entry, f'{show(keys)} visited twice', rel)
       continue
     seen[t] = keys
-    rel = keys[len(offset):]
     if tk(keys[:len(offset)]) != tk(offset) or tk(rel) not in expected:
-      bad('visit-extra', entry, f'reported path {show(keys)} is not a position of the value')
+      bad('visit-extra', entry, f'reported path {show(keys)} is not a position of the value', rel)
       continue
     node = expected[tk(rel)][1]
     if value is not node:
       bad('visit-path', entry, f'path {show(keys)} reported for {value!r:.80}, '
-          f'item access gives {node!r:.80}')
+          f'item access gives {node!r:.80}', rel)
     if parent is not Ellipsis:
       exp_parent = nav(root, rel[:-1]) if rel else None
       if parent is not exp_parent:
-        bad('visit-parent', entry, f'at {show(keys)} parent is {parent!r:.80}')
+        bad('visit-parent', entry, f'at {show(keys)} parent is {parent!r:.80}', rel)
   for t, (keys, node) in expected.items():
     if tk(offset + keys) not in seen:
       if keys and tk(keys[:-1]) in expected and tk(offset + keys[:-1]) not in seen:
         continue          # reported for the topmost missing position only
       # pg.traverse: the key names the class of the container whose member
       # was not visited.
-      par = ('/' + (cls_name(nav(root, keys[:-1])) if keys else 'root')
+      holder = nav(root, keys[:-1]) if keys else None
+      par = ('/' + (cls_name(holder) if keys else 'root')
              if entry == 'pg.traverse' else '')
-      bad('visit-missing', entry + par, f'position {show(keys)} ({node!r:.60}) not visited')
+      if keys and id(holder) in shared:
+        par += '/shared'
+      bad('visit-missing', entry + par, f'position {show(keys)} ({node!r:.60}) not visited', keys)
+
+
+# ---------------------------------------------------------------------------
+# Histories of writes applied to a symbolic value before it is traversed. The
+# operations are not modelled: the value they leave is described afterwards by
+# trusted navigation (`describe`), and an operation that raises ends the case
+# (what a write does belongs to other properties).
+
+def live_positions(root):
+  out = []
+
+  def walk(v, keys):
+    out.append((keys, v))
+    if isinstance(v, pg.Ref):
+      return
+    if isinstance(v, (pg.Object, pg.Dict)):
+      for k in list(v.sym_keys()):
+        walk(v.sym_getattr(k), keys + (k,))
+    elif isinstance(v, pg.List):
+      for j in range(len(v)):
+        walk(v.sym_getattr(j), keys + (j,))
+  walk(root, ())
+  return out
+
+
+def print_path(keys):
+  """The printed path when it parses back to the same keys, else None."""
+  o = outcome(lambda: str(KeyPath(list(keys))))
+  o2 = outcome(lambda: KeyPath.parse(o[1])) if o[0] == 'ok' else o
+  return o[1] if o2[0] == 'ok' and tk(o2[1].keys) == tk(keys) else None
+
+
+def is_within(node, anc):
+  while node is not None:
+    if node is anc:
+      return True
+    node = node.sym_parent
+  return False
+
+
+def fresh_value(rng, opts, container=False):
+  sub = dict(opts, maxdepth=2)
+  d = gen_tree(rng, 0, True, Budget(6), sub, root=container or rng.random() < 0.7)
+  return build(d)
+
+
+def detach(root, keys):
+  parent, k = nav(root, keys[:-1]), keys[-1]
+  if isinstance(parent, pg.Object):
+    parent.rebind({k: None})
+  else:
+    del parent[k]
+
+
+def place(rng, dest, node):
+  if isinstance(dest, pg.Object):
+    dest.rebind({rng.choice(['x', 'y']): node})
+  elif isinstance(dest, pg.Dict):
+    have = list(dest.sym_keys())
+    k = rng.choice(have) if have and rng.random() < 0.3 else gen_keys(rng, 1, True)[0]
+    if rng.random() < 0.5:
+      dest[k] = node
+    else:
+      dest.rebind({KeyPath([k]): node})
+  else:
+    n = len(dest)
+    r = rng.random()
+    if n and r < 0.25:
+      dest[rng.randrange(n)] = node
+    elif r < 0.5:
+      dest.insert(rng.randint(0, n), node)
+    elif r < 0.75:
+      dest.rebind({rng.randint(0, n): pg.Insertion(node)})
+    else:
+      dest.append(node)
+
+
+def h_insertion(rng, root, pos, opts):
+  """A batch that only inserts into a list (pg.Insertion, growing slice)."""
+  lists = [(k, n) for k, n in pos if isinstance(n, pg.List)]
+  if not lists:
+    return None
+  keys, lst = rng.choice(lists)
+  n = len(lst)
+  j = rng.randrange(n) if n and rng.random() < 0.85 else n
+  v = fresh_value(rng, opts)
+  form = rng.randint(0, 5)
+  s = print_path(keys + (j,))
+  if form == 0 or (form in (1, 5) and s is None):
+    lst.rebind({j: pg.Insertion(v)})
+  elif form == 1:
+    root.rebind({s: pg.Insertion(v)})
+  elif form == 2:
+    lst[j:j] = [v, fresh_value(rng, opts)]
+  elif form == 3:
+    lst[j:j + 1] = [v, fresh_value(rng, opts)]
+  elif form == 4:
+    lst.insert(j, v)
+  else:
+    # together with a plain update in a container that is not below the list
+    others = [(k2, n2) for k2, n2 in pos if isinstance(n2, pg.Dict)
+              and tk(k2[:len(keys)]) != tk(keys)]
+    batch = {s: pg.Insertion(v)}
+    if others:
+      k2, _ = rng.choice(others)
+      s2 = print_path(k2 + ('hk',))
+      if s2 is not None:
+        batch[s2] = rng.choice(LEAVES[:8])
+    root.rebind(batch)
+  return root
+
+
+def h_json(rng, root, pos, opts):
+  """JSON round trip of the value or of a part (kept when it reproduces it)."""
+  conts = [(k, n) for k, n in pos if k and isinstance(n, (pg.Dict, pg.List, pg.Object))]
+  if conts and rng.random() < 0.4:
+    keys, node = rng.choice(conts)
+  else:
+    keys, node = (), root
+  # (the round trip itself is another property's concern: it is used only when
+  # it reproduces the value; converting does not change `node`)
+  if rng.random() < 0.5:
+    o = outcome(lambda: pg.from_json(node.to_json()))
+  else:
+    o = outcome(lambda: pg.from_json_str(node.to_json_str()))
+  if o[0] == 'raise' or to_model(o[1]) != to_model(node):
+    return None
+  new = o[1]
+  if not keys:
+    return new
+  parent = nav(root, keys[:-1])
+  if isinstance(parent, pg.Object) or rng.random() < 0.5:
+    parent.rebind({KeyPath([keys[-1]]): new})
+  else:
+    parent[keys[-1]] = new
+  return root
+
+
+def h_move(rng, root, pos, opts):
+  """A sub-tree is stored at another place (detached first, or copied by the
+  library because it still has a parent)."""
+  conts = [(k, n) for k, n in pos if k and isinstance(n, (pg.Dict, pg.List, pg.Object))]
+  if not conts:
+    return None
+  keys, node = rng.choice(conts)
+  dests = [n for _, n in pos if isinstance(n, (pg.Dict, pg.List, pg.Object))
+           and not is_within(n, node)]
+  if not dests:
+    return None
+  dest = rng.choice(dests)
+  if rng.random() < 0.5:
+    detach(root, keys)
+  place(rng, dest, node)
+  return root
+
+
+def h_graft(rng, root, pos, opts):
+  """A sub-tree of ANOTHER tree is stored in this one."""
+  other = fresh_value(rng, dict(opts, maxdepth=3), container=True)
+  conts = [(k, n) for k, n in live_positions(other)
+           if k and isinstance(n, (pg.Dict, pg.List, pg.Object))]
+  if conts and rng.random() < 0.7:
+    keys, node = rng.choice(conts)
+    if rng.random() < 0.5:
+      detach(other, keys)
+  else:
+    node = other
+  dests = [n for _, n in pos if isinstance(n, (pg.Dict, pg.List, pg.Object))]
+  place(rng, rng.choice(dests), node)
+  return root
+
+
+def h_reroot(rng, root, pos, opts):
+  """The value becomes a member of a new root, or a part becomes the root."""
+  conts = [(k, n) for k, n in pos if k and isinstance(n, (pg.Dict, pg.List, pg.Object))]
+  if conts and rng.random() < 0.5:
+    keys, node = rng.choice(conts)
+    detach(root, keys)
+    return node
+  r = rng.random()
+  if r < 0.4:
+    return pg.Dict({gen_keys(rng, 1, True)[0]: root, 'w': 1})
+  if r < 0.8:
+    return pg.List([rng.choice(LEAVES[:8]), root])
+  return M.Any2(x=root)
+
+
+def h_clone(rng, root, pos, opts):
+  import copy  # pylint: disable=import-outside-toplevel
+  r = rng.random()
+  return root.clone(deep=True) if r < 0.5 else copy.deepcopy(root) if r < 0.8 else root.clone()
+
+
+def h_listop(rng, root, pos, opts):
+  lists = [(k, n) for k, n in pos if isinstance(n, pg.List) and len(n)]
+  if not lists:
+    return None
+  _, lst = rng.choice(lists)
+  j = rng.randrange(len(lst))
+  op = rng.randint(0, 4)
+  if op == 0:
+    lst.pop(j)
+  elif op == 1:
+    del lst[j]
+  elif op == 2:
+    lst.reverse()
+  elif op == 3:
+    lst.rebind({j: pg.MISSING_VALUE})
+  else:
+    lst.extend([fresh_value(rng, opts)])
+  return root
+
+
+def h_replace(rng, root, pos, opts):
+  cands = [k for k, _ in pos if k]
+  if not cands:
+    return None
+  keys = rng.choice(cands)
+  parent, v = nav(root, keys[:-1]), fresh_value(rng, opts)
+  s = print_path(keys)
+  if s is not None and rng.random() < 0.5:
+    root.rebind({s: v})
+  elif isinstance(parent, pg.Object):
+    parent.rebind({keys[-1]: v})
+  else:
+    parent[keys[-1]] = v
+  return root
+
+
+HISTORY_OPS = [('insertion', h_insertion), ('insertion', h_insertion), ('json', h_json),
+               ('json', h_json), ('move', h_move), ('graft', h_graft), ('reroot', h_reroot),
+               ('clone', h_clone), ('listop', h_listop), ('replace', h_replace)]
+
+
+def history(ctx, rng, root, opts):
+  """Applies 1-5 operations; (root, names of the applied ones) or (None, ...)."""
+  names = []
+  for _ in range(rng.randint(1, 5)):
+    name, fn = rng.choice(HISTORY_OPS)
+    pos = live_positions(root)
+    if len(pos) > 90:
+      break
+    ctx.counters['history_steps'] += 1
+    o = outcome(lambda: fn(rng, root, pos, opts))  # pylint: disable=cell-var-from-loop
+    if o[0] == 'raise':
+      ctx.counters['history_op_raised'] += 1
+      ctx.counters['history_op_raised:' + name] += 1
+      ctx.notes.setdefault('history_op_raised', f'{name}: {o[1]!r:.200}')
+      return None, names
+    if o[1] is None:
+      continue
+    if not isinstance(o[1], (pg.Dict, pg.List, pg.Object)):
+      return None, names
+    root = o[1]
+    names.append(name)
+    ctx.counters['history_op:' + name] += 1
+  return root, names
 
 
 def tree_case(ctx, i):
+  try:
+    tree_case_(ctx, i)
+  except EndCase:
+    ctx.label = None
+
+
+def tree_case_(ctx, i):
+  """Flavours: a freshly built plain / symbolic / mixed value; a plain value
+  with ALIASED members (one object at several paths); a symbolic value with
+  pg.Inferential members; a symbolic value that went through a HISTORY of
+  writes (insertion batches, JSON round trips, moves, re-rooting) first."""
   rng, c = ctx.rng, ctx.counters
   root_sym = rng.random() < 0.5
   flat_mode = rng.random() < 0.5          # shape eligible for flatten/canonicalize
+  r = rng.random()
+  flavour = ('fresh' if r < 0.4 else
+             'alias' if not root_sym else 'inferential' if r < 0.7 else 'history')
   opts = dict(maxdepth=rng.randint(2, 4), objects=True,
               int_keys=not flat_mode, sym_subtree=0.2,
               root_kinds=['D', 'D', 'L'] if flat_mode or not root_sym else ['D', 'L', 'O'])
+  if flavour == 'inferential':
+    opts['inferential'] = rng.choice('DLO')
+    if opts['inferential'] == 'O':
+      opts['root_kinds'] = ['D', 'L', 'O', 'O']
+  elif flavour == 'history':
+    opts['json_leaves'] = True
   d = gen_tree(rng, 0, root_sym, Budget(40), opts, root=True)
+  n_alias = graft_aliases(rng, d) if flavour == 'alias' else 0
   root = build_root(ctx, d)
   if root is None:
     return
+  if flavour == 'history':
+    root, ops = history(ctx, rng, root, opts)
+    if root is None:
+      return
+    d = describe(root)
+    c['history_trees'] += 1
+    ctx.seen('history_ops', tuple(ops))
+  c['flavour:' + flavour] += 1
+  c['aliased_occurrences'] += n_alias
+  check_tree(ctx, i, d, root, flavour, opts)
+
+
+def check_tree(ctx, i, d, root, flavour, opts):
+  rng, c = ctx.rng, ctx.counters
   pos = positions(d)
-  case = {'value': show_desc(d)}
+  case = {'value': show_desc(d), 'flavour': flavour}
   expected = {}
   for keys, dn in pos:
     expected[tk(keys)] = (keys, nav(root, keys))
   is_sym = isinstance(root, pg.Symbolic)
+  holder = {'D': 'Dict', 'L': 'List', 'O': 'Object'}.get(opts.get('inferential'))
+  # positions of pg.Inferential members (all held by containers of one class)
+  inf_pos = {t for t, (keys, node) in expected.items()
+             if keys and isinstance(node, pg.symbolic.Inferential)} if holder else set()
+  c['inferential_members'] += len(inf_pos)
+  counts = {}
+  for keys, node in expected.values():
+    if isinstance(node, (dict, list, pg.Object)):
+      counts[id(node)] = counts.get(id(node), 0) + 1
+  shared = {n for n, k in counts.items() if k > 1}
+  c['shared_containers'] += len(shared)
+
+  def violation(clause, mech, detail):
+    ctx.violation(clause, mech, f'value={show_desc(d)[:1500]}\n{detail}', case)
+
+  def remap(clause, mech, keys):
+    """A reported path that is at or below a pg.Inferential member does not lead
+    back to the reported node: one key per class of the holding container."""
+    if clause in ('visit-extra', 'visit-path', 'visit-parent', 'visit-duplicate') and any(
+        tk(keys[:n]) in inf_pos for n in range(1, len(keys) + 1)):
+      return 'visit-path', 'inferential-in-' + holder
+    return clause, mech
 
   def bad(clause, mech, detail):
-    ctx.violation(clause, mech, f'value={show_desc(d)[:1500]}\n{detail}', case)
+    violation(clause, mech, detail)
+    if mech.startswith('inferential-in-'):
+      raise EndCase()       # every later observation repeats it
+
+  def call(label, fn):
+    """A traversal entry point; with inferential members present an exception
+    is keyed by the class of the holding container."""
+    ctx.label = label
+    if not inf_pos:
+      out = fn()
+    else:
+      o = outcome(fn)
+      if o[0] == 'raise':
+        ctx.label = None
+        bad('visit-raises', 'inferential-in-' + holder, f'{label} raised {o[1]!r}')
+      out = o[1]
+    ctx.label = None
+    return out
+
+  def logcheck(variant, log, exp, offset=()):
+    check_log(ctx, bad, variant, root, log, exp, offset, shared, remap if inf_pos else None)
+
+  # -- the path each symbolic node reports itself -----------------------------
+  # relative to the topmost symbolic container it is in
+  start = {}
+  for keys, dn in pos:
+    node = expected[tk(keys)][1]
+    if not isinstance(node, pg.Symbolic):
+      continue
+    st = start.get(tk(keys[:-1])) if keys else None
+    if st is None:
+      st = len(keys)
+    if True:
+      start[tk(keys)] = st
+      c['sym_path_checks'] += 1
+      o = outcome(lambda: node.sym_path.keys)  # pylint: disable=cell-var-from-loop
+      if o[0] == 'raise' or tk(o[1]) != tk(keys[st:]):
+        bad('visit-path', 'sym_path', f'the node at {show(keys)} reports sym_path '
+            f'{o[1]!r}; its topmost symbolic container is at {show(keys[:st])}')
+        break
 
   # -- pg.traverse: pre-order and post-order logs -----------------------------
   pre, post = [], []
-  ctx.label = 'pg.traverse'
-  ret = pg.traverse(root, lambda k, v, p: pre.append((k, v, p)) or TA.ENTER,
-                    lambda k, v, p: post.append((k, v, p)) or TA.ENTER)
-  ctx.label = None
-  check_log(ctx, bad, 'pg.traverse[pre]', root, pre, expected)
-  check_log(ctx, bad, 'pg.traverse[post]', root, post, expected)
+  ret = call('pg.traverse', lambda: pg.traverse(
+      root, lambda k, v, p: pre.append((k, v, p)) or TA.ENTER,
+      lambda k, v, p: post.append((k, v, p)) or TA.ENTER))
+  logcheck('pg.traverse[pre]', pre, expected)
+  logcheck('pg.traverse[post]', post, expected)
   c['visit_logs'] += 1
   if ret is not True:
     bad('visit-result', 'pg.traverse', f'returned {ret!r} although no visitor stopped')
@@ -764,23 +1127,20 @@ def tree_case(ctx, i):
   # -- root_path offset -------------------------------------------------------
   offset = tuple(any_key(rng) for _ in range(rng.randint(1, 2)))
   log = []
-  ctx.label = 'pg.traverse[root_path]'
-  pg.traverse(root, lambda k, v, p: log.append((k, v, p)) or TA.ENTER,
-              root_path=KeyPath(list(offset)))
-  ctx.label = None
-  check_log(ctx, bad, 'pg.traverse[root_path]', root, log, expected, offset)
+  call('pg.traverse[root_path]', lambda: pg.traverse(
+      root, lambda k, v, p: log.append((k, v, p)) or TA.ENTER,
+      root_path=KeyPath(list(offset))))
+  logcheck('pg.traverse[root_path]', log, expected, offset)
 
   # -- CONTINUE skips exactly the sub-tree ------------------------------------
   conts = [keys for keys, dn in pos if dn['t'] != 'v' and keys and rng.random() < 0.3]
   skip = {tk(k) for k in conts}
   log = []
-  ctx.label = 'pg.traverse[CONTINUE]'
-  ret = pg.traverse(root, lambda k, v, p: (
-      log.append((k, v, p)), TA.CONTINUE if tk(k.keys) in skip else TA.ENTER)[1])
-  ctx.label = None
+  ret = call('pg.traverse[CONTINUE]', lambda: pg.traverse(root, lambda k, v, p: (
+      log.append((k, v, p)), TA.CONTINUE if tk(k.keys) in skip else TA.ENTER)[1]))
   below = lambda keys: any(tk(keys[:n]) in skip for n in range(len(keys)))
   exp2 = {t: e for t, e in expected.items() if not below(e[0])}
-  check_log(ctx, bad, 'pg.traverse[CONTINUE]', root, log, exp2)
+  logcheck('pg.traverse[CONTINUE]', log, exp2)
   if ret is not True:
     bad('visit-result', 'pg.traverse[CONTINUE]', f'returned {ret!r}')
 
@@ -854,7 +1214,7 @@ def tree_case(ctx, i):
         bad('visit-path', family(entry), f'{entry}: result key {s!r} does not parse')
         continue
       log.append((o[1], v, Ellipsis))
-    check_log(ctx, bad, entry, root, log, {t: expected[t] for t in exp_keys})
+    logcheck(entry, log, {t: expected[t] for t in exp_keys})
 
   topmost = lambda sel: {t for t in sel
                          if not any(tk(expected[t][0][:n]) in sel
@@ -869,21 +1229,19 @@ def tree_case(ctx, i):
   chosen = {tk(keys) for keys, _ in rng.sample(pos, min(len(pos), rng.randint(1, 4)))}
   tkeys, tnode = expected[rng.choice(sorted(chosen))]
   if strings_ok:
-    ctx.label = 'pg.query'
-    check_query('pg.query[all]', pg.query(root, enter_selected=True), set(expected))
-    check_query('pg.query[where,enter]', pg.query(root, where=pred, enter_selected=True), sel)
-    check_query('pg.query[where]', pg.query(root, where=pred), topmost(sel))
-    check_query('pg.query[where2]', pg.query(root, where=lambda v, p: pred(v)), topmost(sel))
+    q = lambda **kw: call('pg.query', lambda: pg.query(root, **kw))
+    check_query('pg.query[all]', q(enter_selected=True), set(expected))
+    check_query('pg.query[where,enter]', q(where=pred, enter_selected=True), sel)
+    check_query('pg.query[where]', q(where=pred), topmost(sel))
+    check_query('pg.query[where2]', q(where=lambda v, p: pred(v)), topmost(sel))
     check_query('pg.query[custom_selector]',
-                pg.query(root, custom_selector=lambda k, v: tk(k.keys) in chosen),
-                topmost(chosen))
+                q(custom_selector=lambda k, v: tk(k.keys) in chosen), topmost(chosen))
     check_query('pg.query[custom_selector3]',
-                pg.query(root, custom_selector=lambda k, v, p: tk(k.keys) in chosen,
-                         enter_selected=True), chosen)
+                q(custom_selector=lambda k, v, p: tk(k.keys) in chosen, enter_selected=True),
+                chosen)
     check_query('pg.query[path_regex]',
-                pg.query(root, path_regex=re.escape(printed[tk(tkeys)]) + r'\Z',
-                         enter_selected=True), {tk(tkeys)})
-    ctx.label = None
+                q(path_regex=re.escape(printed[tk(tkeys)]) + r'\Z', enter_selected=True),
+                {tk(tkeys)})
   else:
     c['skipped_printed_path_checks'] += 1
 
@@ -902,23 +1260,26 @@ def tree_case(ctx, i):
           hv[id(x)] = hv.get(id(x), 0) + 1
         missing = [ks_ for n, kss in ids.items() if hv.get(n, 0) < len(kss) for ks_ in kss]
         missing.sort(key=len)      # topmost first
-        clause = 'visit-missing' if missing else 'visit-duplicate'
+        extra = [x for x in got if id(x) not in ids]
+        if inf_pos and (extra or any(tk(ks_) in inf_pos for ks_ in missing)):
+          # the inferred value was returned (and entered) instead of the member
+          bad('visit-path', 'inferential-in-' + holder, f'{entry}: returned {extra[:3]!r:.200} '
+              f'which are not nodes of the value; missing {missing[:4]!r}')
+        clause = 'visit-missing' if missing else 'visit-extra' if extra else 'visit-duplicate'
         bad(clause, family(entry), f'{entry}: expected {len(want)} nodes, got '
-            f'{len(have)}; positions concerned: {missing[:4]!r}')
+            f'{len(have)}; positions concerned: {missing[:4]!r}; not in the value: '
+            f'{extra[:3]!r:.200}')
     strict = set(expected) - {tk(())}
-    ctx.label = 'sym_descendants'
-    check_desc('sym_descendants[ALL]', root.sym_descendants(), strict)
-    check_desc('sym_descendants[ALL,self]', root.sym_descendants(include_self=True),
-               set(expected))
+    desc = lambda *a, **kw: call('sym_descendants', lambda: root.sym_descendants(*a, **kw))
+    check_desc('sym_descendants[ALL]', desc(), strict)
+    check_desc('sym_descendants[ALL,self]', desc(include_self=True), set(expected))
     dsel = {t for t in strict if pred(expected[t][1])}
-    check_desc('sym_descendants[where,ALL]', root.sym_descendants(pred), dsel)
-    check_desc('sym_descendants[where,IMMEDIATE]',
-               root.sym_descendants(pred, DQ.IMMEDIATE), topmost(dsel))
+    check_desc('sym_descendants[where,ALL]', desc(pred), dsel)
+    check_desc('sym_descendants[where,IMMEDIATE]', desc(pred, DQ.IMMEDIATE), topmost(dsel))
     has_below = lambda t: any(u != t and len(expected[u][0]) > len(expected[t][0])
                               and tk(expected[u][0][:len(expected[t][0])]) == t for u in dsel)
-    check_desc('sym_descendants[where,LEAF]', root.sym_descendants(pred, DQ.LEAF),
+    check_desc('sym_descendants[where,LEAF]', desc(pred, DQ.LEAF),
                {t for t in dsel if not has_below(t)})
-    ctx.label = None
 
   # -- flatten / canonicalize -------------------------------------------------
   def int_dict_key(dn):
@@ -928,7 +1289,7 @@ def tree_case(ctx, i):
       return True
     return any(int_dict_key(ch) for _, ch in children(dn))
 
-  if d['t'] in 'DL' and not int_dict_key(d) and strings_ok:
+  if d['t'] in 'DL' and not int_dict_key(d) and strings_ok and not inf_pos:
     def leaves(dn, prefix=()):
       if dn['t'] in 'DL' and dn['items']:
         out = []
@@ -993,15 +1354,18 @@ def tree_case(ctx, i):
 
   ctx.seen('tree_shapes', shape(d))
   if len(pos) >= 6 and any(hostile(k) for keys, _ in pos for k in keys if isinstance(k, str)):
-    ctx.mark_nontrivial(('tree', shape(d)))
+    ctx.mark_nontrivial(('tree', flavour, shape(d)))
   if want_sample(ctx, i, 1):
-    ctx.sample({'kind': 'tree', 'value': show_desc(d)[:600], 'positions': len(pos)})
+    ctx.sample({'kind': 'tree', 'flavour': flavour, 'value': show_desc(d)[:600],
+                'positions': len(pos)})
 
 
 # ---------------------------------------------------------------------------
 # Rebinder functions.
 
 def to_model(v):
+  if isinstance(v, pg.Ref):
+    return ('ref', id(v.value))
   if isinstance(v, pg.Object):
     return ('O', type(v).__name__, {k: to_model(x) for k, x in v.sym_items()})
   if isinstance(v, dict):
@@ -1016,7 +1380,7 @@ def desc_model(d, prefix, repl):
   if t in repl:
     return to_model(repl[t])
   if d['t'] == 'v':
-    return ('v', type(d['v']).__name__, d['v'])
+    return to_model(d['v'])
   if d['t'] == 'D':
     return ('D', {tk([k]): desc_model(ch, prefix + (k,), repl) for k, ch in d['items']})
   if d['t'] == 'L':
@@ -1025,14 +1389,27 @@ def desc_model(d, prefix, repl):
 
 
 def rebind_case(ctx, i):
+  try:
+    rebind_case_(ctx, i)
+  except EndCase:
+    pass
+
+
+def rebind_case_(ctx, i):
   rng, c = ctx.rng, ctx.counters
   opts = dict(maxdepth=rng.randint(2, 4), objects=True, int_keys=True,
               sym_subtree=0.0, root_kinds=['D', 'D', 'L', 'O'])
+  if rng.random() < 0.25:
+    opts['inferential'] = rng.choice('DLO')
   d = gen_tree(rng, 0, True, Budget(30), opts, root=True)
   root = build_root(ctx, d)
   if root is None:
     return
   pos = positions(d)
+  holder = {'D': 'Dict', 'L': 'List', 'O': 'Object'}.get(opts.get('inferential'))
+  inf_pos = {tk(keys) for keys, _ in pos
+             if keys and isinstance(nav(root, keys), pg.symbolic.Inferential)} if holder else set()
+  c['inferential_members'] += len(inf_pos)
   # rebind(fn) addresses its updates through printed paths
   reported = []
   once = lambda cl, m, dt: reported or (reported.append(1), ctx.violation(
@@ -1057,6 +1434,8 @@ def rebind_case(ctx, i):
     new_values[t] = (f'NEW{n}' if r < 0.5 else 1000 + n if r < 0.7
                      else {'n': n, 'a.b': [n]} if r < 0.85 else [n, {'k': n}])
   ids = {id(before[t][1]): t for t in sel} if by_identity else None
+  if by_identity and len(ids) != len(sel):
+    by_identity, ids = False, None      # one object at two selected positions
   calls = []
 
   def pick(k, v):
@@ -1068,21 +1447,33 @@ def rebind_case(ctx, i):
   case = {'value': show_desc(d), 'selected': [show(k) for k in picked],
           'by': 'identity' if by_identity else 'path'}
 
-  def bad(clause, detail):
-    ctx.violation(clause, 'rebind[fn]', f'value={show_desc(d)[:1200]}\nselected='
+  def bad(clause, detail, mech='rebind[fn]'):
+    ctx.violation(clause, mech, f'value={show_desc(d)[:1200]}\nselected='
                   f'{[show(before[t][0]) for t in sorted(eff)]}\n{detail}', case)
+    if mech != 'rebind[fn]':
+      raise EndCase()
+
+  def remap(clause, mech, keys):
+    if clause in ('visit-extra', 'visit-path', 'visit-parent', 'visit-duplicate') and any(
+        tk(keys[:n]) in inf_pos for n in range(1, len(keys) + 1)):
+      return 'visit-path', 'inferential-in-' + holder
+    return clause, mech
 
   c['rebind_fn'] += 1
   o = outcome(lambda: root.rebind(fn, raise_on_no_change=False))
   if o[0] == 'raise':
-    bad('rebinder-raises', f'rebind(fn) raised {o[1]!r}')
+    # with inferential members: keyed by the class of the container holding them
+    bad('rebinder-raises', f'rebind(fn) raised {o[1]!r}',
+        'inferential-in-' + holder if inf_pos else 'rebind[fn]')
     return
   if o[1] is not root:
     bad('rebinder-result', f'rebind returned {o[1]!r:.100}, not the object itself')
   # The rebinder saw every position that is not below a selected one.
   below = lambda keys: any(tk(keys[:n]) in eff for n in range(len(keys)))
   exp_seen = {t: e for t, e in before.items() if not below(e[0])}
-  check_log(ctx, lambda cl, m, dt: bad(cl, dt), 'rebind[fn]', root, calls, exp_seen)
+  check_log(ctx, lambda cl, m, dt: bad(cl, dt, m if m.startswith('inferential-in-')
+                                       else 'rebind[fn]'),
+            'rebind[fn]', root, calls, exp_seen, remap=remap if inf_pos else None)
   want = desc_model(d, (), {t: new_values[t] for t in eff})
   got = to_model(root)
   if got != want:
